@@ -1457,10 +1457,13 @@ def set_seq_zo_fo_absorption(model: Model):
             )
         elif not depot and not have_ZO:
             model = set_first_order_absorption(model)
-            depot = model.statements.ode_system.find_depot(model.statements)
-            model = _add_zero_order_absorption(
-                model, Bolus(dose_comp.doses[0].amount), depot, 'MDT'
-            )
+            odes = model.statements.ode_system
+            depot = odes.find_depot(model.statements)
+            if depot is None:
+                # Absorption through transit compartments without depot:
+                # the zero order input goes to the dose compartment
+                depot = odes.dosing_compartments[0]
+            model = _add_zero_order_absorption(model, depot.doses[0], depot, 'MDT')
         model = model.update_source()
     return model
 
